@@ -437,6 +437,11 @@ class FnTranslator:
                 b, c, t = self._expr(n.args[0], env)
                 unify(t, "Int")
                 return b, f"(pyStr {c})", "Str"
+            if name in ("min", "max") and len(n.args) == 1 and not n.keywords:
+                b, c, t = self.iter_expr(n.args[0], env)
+                unify(t, ("List", "Int"))
+                v = self.fresh()
+                return b + [f"let {v} ← {'pyMin' if name == 'min' else 'pyMax'} {c}"], v, "Int"
             if name == "sorted" and len(n.args) == 1 and not n.keywords:
                 b, c, t = self.iter_expr(n.args[0], env)
                 unify(t, ("List", "Int"))
@@ -610,6 +615,28 @@ class FnTranslator:
                 lines += [ind + x for x in b] + [f"{ind}pure {c}"]
                 self.ret_type = t
                 return lines, env
+            if isinstance(s, ast.If) and tail is None and self.ends_function(s.body) and (last or not s.orelse) \
+                    and any(isinstance(x, ast.Return) for x in ast.walk(s)):
+                # `if c: …; return X` followed by the rest of the function (or by an else branch that also returns):
+                # the rest is the else branch
+                b, c, t = self._expr(s.test, env)
+                unify(t, "Bool")
+                rest = s.orelse if (last and s.orelse) else stmts[k + 1:]
+                if not rest:
+                    raise Unsupported("function may end without a return")
+                ind2 = ind + "    "
+                saved = set(getattr(self, "nonnull", ()))
+                l1, _ = self.block(s.body, dict(env), ind2, None)
+                self.nonnull = saved
+                rt1 = self.ret_type
+                l2, _ = self.block(rest, dict(env), ind2, None)
+                self.nonnull = saved
+                if rt1 is not None and self.ret_type is not None:
+                    self.ret_type = unify(rt1, self.ret_type)
+                elif rt1 is not None:
+                    self.ret_type = rt1
+                lines += [ind + x for x in b] + [f"{ind}if {c} then do"] + l1 + [f"{ind}else do"] + l2
+                return lines, env
             if isinstance(s, ast.Raise) and last:
                 lines.append(f"{ind}none")     # the block ends by raising: no value
                 self.raised_blocks = getattr(self, "raised_blocks", 0) + 1
@@ -619,6 +646,18 @@ class FnTranslator:
             raise Unsupported("function without a final return")
         lines.append(f"{ind}pure {tail(env)}")
         return lines, env
+
+    def ends_function(self, stmts):
+        """the statement list always leaves the function (its last statement is a return / raise, or an if whose
+        branches all do)"""
+        if not stmts:
+            return False
+        z = stmts[-1]
+        if isinstance(z, (ast.Return, ast.Raise)):
+            return True
+        if isinstance(z, ast.If) and z.orelse:
+            return self.ends_function(z.body) and self.ends_function(z.orelse)
+        return False
 
     def stmt(self, s, env, ind):
         L = []
